@@ -293,7 +293,7 @@ def _select_histories(recs, limit, rng, want_fault=None, min_runs=1):
 
 
 def _run_histories(report, tier, maxver, maxruns, limit, faults, want_fault=None,
-                   variant=0, extend=None):
+                   variant=0, extend=None, a2_variant=None):
     """Generate histories with TLC, replay them, validate all traces.
     Returns list of (history record, [run records], [trace verdicts])."""
     import random
@@ -305,7 +305,7 @@ def _run_histories(report, tier, maxver, maxruns, limit, faults, want_fault=None
     chosen = _select_histories(gen, limit, rng, want_fault=want_fault)
     if extend:
         chosen = [extend(r) for r in chosen]
-    histories = runs.make_histories(maxver, variant=variant)
+    histories = runs.make_histories(maxver, variant=variant, a2_variant=a2_variant)
     oracles = runs.Oracles(histories)
     oracles.compute()
 
@@ -384,14 +384,37 @@ def c04(tier, replay=None):
     from .dbproj import diff_schema, schema_of
     report = Report('C04', tier)
     maxver, maxruns, limit = (2, 3, 40) if tier == 'quick' else (3, 4, 400)
-    chosen, results, histories, oracles, ngen = _run_histories(
-        report, tier, maxver, maxruns, limit, faults=False)
     nontrivial = set()
+    all_chosen, ngen = 0, 0
+    # second family: app a2's second evolution starts with RenameModel to a new table
+    for family, a2_variant, share in (('chain', None, 1.0), ('rename', 3, 0.5)):
+        chosen, results, histories, oracles, n = _run_histories(
+            report, tier, maxver, maxruns, int(limit * share), faults=False, a2_variant=a2_variant)
+        all_chosen += len(chosen)
+        ngen += n
+        _c04_judge(report, tier, family, chosen, results, histories, oracles, nontrivial)
+    report.coverage['distinct_nontrivial'] = len(nontrivial)
+    report.coverage['exhaustive'] = all_chosen == ngen
+    report.coverage['rule'] = (
+        'TLC explores Evolver.tla (2 apps, MaxVer=%d, <=%d runs, drivers api/cmd, no faults) and '
+        'prints one history per reachable idle state (VIEW hides the history variable); %d of %d '
+        'histories were replayed on synthetic projects (chain-family evolutions; a second family whose '
+        'evolution 2 of app a2 renames the model to a new table first), every run traced '
+        'and validated by EvolverTrace, and each completed run judged against the fresh-install '
+        'oracle. Non-trivial = at least two runs; distinct = distinct (family, history).'
+        % (maxver, maxruns, all_chosen, ngen))
+    report.assumptions += ['chain-family evolutions (histories.py) make version numbers exact',
+                           'fresh-install oracle computed by a real fresh install per version']
+    return report.finish()
+
+
+def _c04_judge(report, tier, family, chosen, results, histories, oracles, nontrivial):
+    from .dbproj import diff_schema, schema_of
     for rec, runrecs in zip(chosen, results):
         label = _hist_label(rec['hist'])
         report.coverage['evaluations'] += 1
         if sum(1 for op in rec['hist'] if op['op'] == 'run') >= 2:
-            nontrivial.add(label)
+            nontrivial.add((family, label))
         for ri, rr in enumerate(runrecs):
             if 'crash' in rr:
                 report.notes.append('runner crash: %s' % rr['crash'].get('stderr', '')[-300:])
@@ -400,7 +423,7 @@ def c04(tier, replay=None):
                 continue
             s = rr['summary']
             code = rr['code']
-            detail = {'history': label, 'run': ri, 'code': code, 'post': rr.get('post'),
+            detail = {'family': family, 'history': label, 'run': ri, 'code': code, 'post': rr.get('post'),
                       'outcome': s['outcome'], 'error': s['error_msg']}
             if s['outcome'] != 'ok':
                 if s['error'] in ('CommandError',) and 'cannot resolve' in (s['error_msg'] or ''):
@@ -442,18 +465,6 @@ def c04(tier, replay=None):
     _trace_rejections(report, 'C04', chosen, results)
     # re-run is a no-op: exercised on converged final states through both drivers
     _rerun_check(report, chosen, results, histories, oracles, tier)
-    report.coverage['distinct_nontrivial'] = len(nontrivial)
-    report.coverage['exhaustive'] = len(chosen) == ngen
-    report.coverage['rule'] = (
-        'TLC explores Evolver.tla (2 apps, MaxVer=%d, <=%d runs, drivers api/cmd, no faults) and '
-        'prints one history per reachable idle state (VIEW hides the history variable); %d of %d '
-        'histories were replayed on a synthetic project (chain-family evolutions), every run traced '
-        'and validated by EvolverTrace, and each completed run judged against the fresh-install '
-        'oracle. Non-trivial = at least two runs; distinct = distinct history.'
-        % (maxver, maxruns, len(chosen), ngen))
-    report.assumptions += ['chain-family evolutions (histories.py) make version numbers exact',
-                           'fresh-install oracle computed by a real fresh install per version']
-    return report.finish()
 
 
 def _rerun_check(report, chosen, results, histories, oracles, tier):
